@@ -54,6 +54,10 @@ mod task;
 
 mod io;
 
+#[cfg(feature = "verif")]
+#[allow(missing_docs)]
+pub mod verif;
+
 const MAX_COMMIT_CONCURRENCY: usize = 64;
 
 /// A full value stored within the trie.
@@ -312,6 +316,9 @@ impl<T: HashAlgorithm> Nomt<T> {
         let access_guard = params
             .take_global_guard
             .then(|| RwLock::read_arc(&self.access_lock));
+
+        #[cfg(feature = "verif")]
+        crate::verif::sched_point("begin_session");
 
         let store = self.store.clone();
         let rollback_delta = if params.record_rollback_delta {
@@ -678,6 +685,9 @@ impl FinishedSession {
     pub fn commit<T: HashAlgorithm>(self, nomt: &Nomt<T>) -> Result<(), anyhow::Error> {
         let _write_guard = self.take_global_guard.then(|| nomt.access_lock.write());
 
+        #[cfg(feature = "verif")]
+        crate::verif::sched_point("session_commit");
+
         {
             let mut shared = nomt.shared.lock();
             if shared.root != self.prev_root {
@@ -786,6 +796,9 @@ impl Overlay {
         let rollback_delta = self.rollback_delta().map(|delta| delta.clone());
 
         let _write_guard = nomt.access_lock.write();
+
+        #[cfg(feature = "verif")]
+        crate::verif::sched_point("overlay_commit");
 
         let marker = self.mark_committed();
 
